@@ -63,13 +63,15 @@ func genC03(r *gen.Rand) *C03Case {
 		return s
 	}
 	exts := []string{"yaml", "yaml", "json", "yml", "jsonl"}
+	// the same layout with every "$" ($parent, $match) spelled as an escape sequence
+	escDollar := r.Chance(0.06)
 	put := func(path string, docs ...any) {
 		if _, ok := gen.StreamText(procsim.Ext(path), docs); !ok {
 			b := "{}\n"
 			w.Files = append(w.Files, procsim.File{Path: path, Raw: &b})
 			return
 		}
-		w.Files = append(w.Files, procsim.File{Path: path, Docs: treeDocs(docs...)})
+		w.Files = append(w.Files, procsim.File{Path: path, Docs: treeDocs(docs...), EscDollar: escDollar})
 	}
 	mkBase := func(tag string) map[string]any {
 		m := tc.Map(r, 2)
@@ -160,6 +162,7 @@ func genC03(r *gen.Rand) *C03Case {
 		}
 	}
 	// variations
+	twinInput := ""
 	switch r.Intn(16) {
 	case 0: // $parent name pointing at another base
 		put(filepath.Join(dir, "other.yaml"), mkBase("other"))
@@ -270,6 +273,26 @@ func genC03(r *gen.Rand) *C03Case {
 		setParent(top, "w*", r.Chance(0.3))
 		c.Linear = false
 		c.Shape = append(c.Shape, "parent-wildcard-formats")
+	case 13, 14: // a second chain with the very same file names in another directory, evaluated by the same parser
+		tdir := dir + "/twin"
+		w.Dirs = append(w.Dirs, tdir)
+		tbase := mkBase("twin")
+		for l, p := range chain {
+			var doc map[string]any = tbase
+			if l > 0 {
+				doc = mkChild(fmt.Sprintf("t%d", l), tbase)
+			}
+			put(filepath.Join(tdir, filepath.Base(p)), doc)
+		}
+		layer := strings.TrimSuffix(filepath.Base(top), "."+procsim.Ext(top))
+		if r.Chance(0.5) {
+			twinInput = rel(filepath.Join(tdir, filepath.Base(top)))
+		} else {
+			put(filepath.Join(dir, "all.yaml"), map[string]any{"$parent": []any{layer, "twin/" + layer}, "k_all": 1})
+			top = filepath.Join(dir, "all.yaml")
+		}
+		c.Linear = false
+		c.Shape = append(c.Shape, "twin-chains")
 	case 8: // $parent with invalid / conflicting values
 		switch r.Intn(3) {
 		case 0:
@@ -303,6 +326,13 @@ func genC03(r *gen.Rand) *C03Case {
 		}
 	}
 	c.Inputs = []string{in}
+	if twinInput != "" {
+		c.Inputs = append(c.Inputs, twinInput)
+		if r.Chance(0.3) {
+			c.Inputs[0], c.Inputs[1] = c.Inputs[1], c.Inputs[0]
+		}
+		c.Shape = append(c.Shape, "multi-input")
+	}
 	if r.Chance(0.25) {
 		// a second command-line input, applied after the first
 		zb := mkBase("z")
@@ -586,7 +616,7 @@ func judgeC03(e *Env, pool *libsim.Pool, c *C03Case, tag string, run int64) (*c0
 		return nil, err
 	}
 	obs.Outcome = trimOutcome(out)
-	if out.Crash != "" || out.StepsOut || out.CPUOut {
+	if out.Crash != "" || out.StepsOut || out.CPUOut || out.Blocked {
 		return obs, nil // C08's subject
 	}
 	if c.Fault != "" {
